@@ -49,6 +49,7 @@ import tlc  # noqa: E402
 
 PID = "C13"
 MODEL_INVS = ("TypeOK", "MachineIsFunction", "LawsHold", "KindsSound", "HistoryOK", "RedefLawsHold")
+HIST_LAW_INVS = ("TypeOK", "HistoryOK", "HistLawsAllCalls")
 PO = ["a1", "a2", "a3"]
 PK = ["b1", "b2", "b3"]
 KO = ["k1", "k2", "k3"]
@@ -71,11 +72,13 @@ REDEF_TARGET = {"function": "f", "lambda": "f", "method": "C.m", "staticmethod":
 
 def model_cfg(n, maxpos, maxkw, star, mod=1, rem=0, export=False, maxredef=0):
   """export: False (check the machine), True / "sigs" (signatures with every call shape),
-  "hists" (histories of <= maxredef re-assignments with their sensitive call shapes)."""
+  "hists" (histories of <= maxredef re-assignments with their sensitive call shapes),
+  "laws" (no export: the re-assignment laws for every call shape on every history state)."""
   export = {False: "none", True: "sigs"}.get(export, export)
   head = {"none": "SPECIFICATION Spec\n", "sigs": "INIT Init\nNEXT OnlySigs\n",
-          "hists": "INIT Init\nNEXT OnlyHists\n"}[export]
-  invs = ("ExportInv",) if export != "none" else MODEL_INVS
+          "hists": "INIT Init\nNEXT OnlyHists\n", "laws": "INIT Init\nNEXT OnlyHists\n"}[export]
+  invs = {"none": MODEL_INVS, "laws": HIST_LAW_INVS}.get(export, ("ExportInv",))
+  export = "none" if export == "laws" else export
   return (head + "CONSTANTS N = %d\n MaxPos = %d\n MaxKw = %d\n Foreign = {%s}\n StarNames = %s\n"
           " SampleMod = %d\n SampleRem = %d\n Export = \"%s\"\n MaxRedef = %d\n" % (
               n, maxpos, maxkw, ", ".join('"%s"' % f for f in FOREIGN), "TRUE" if star else "FALSE",
@@ -636,6 +639,7 @@ def main():
   ap.add_argument("--replay")
   a = ap.parse_args()
   run = common.Run(PID, "model_checking", a.tier)
+  run._sample_cap = 9   # pylint: disable=protected-access  (6 plain outcome tags + 3 history effects)
   boot.boot()
   if a.replay:
     with open(a.replay) as f:
@@ -659,7 +663,7 @@ def main():
   rem = run.seed % mod
   # 1. TLC: the design (all pairs of the bounds) and the export of the signatures, side by side
   # with nothing else (the replay needs the export first).
-  with cf.ThreadPoolExecutor(max_workers=6) as ex:
+  with cf.ThreadPoolExecutor(max_workers=7) as ex:
     jm = ex.submit(tlc.run, "ArgBind", model_cfg(n, maxpos, maxkw, True), workers=6 if thorough else 4,
                    timeout=3000, seed=run.seed)
     je = ex.submit(tlc.run, "ArgBind", model_cfg(n, maxpos, maxkw, True, mod, rem, export=True),
@@ -667,12 +671,19 @@ def main():
     jm3 = None
     if thorough:
       jm3 = ex.submit(tlc.run, "ArgBind", model_cfg(3, 5, 3, False), workers=6, timeout=6000, seed=run.seed)
-    # histories: the machine with Return / SetDefaults (quick: one re-assignment per behaviour,
-    # thorough: two) and the export of (definition, history, sensitive call shapes)
-    hn, hpos, hkw, hred = 2, 3, 2, (2 if thorough else 1)
-    jh = ex.submit(tlc.run, "ArgBind", model_cfg(hn, hpos, hkw, False, maxredef=hred),
-                   workers=6 if thorough else 3, timeout=6000, seed=run.seed)
-    jhe = ex.submit(tlc.run, "ArgBind", model_cfg(hn, hpos, hkw, True, mod, rem, export="hists", maxredef=1),
+    # histories: (a) the phase machine with Return / SetDefaults interleaved with the calls (quick:
+    # <= 1 parameter of each kind, two re-assignments; thorough: <= 2 of each kind, one), (b) the
+    # re-assignment laws for every call shape of the full bounds on every (definition, history)
+    # (quick: one re-assignment, thorough: two), (c) the export of (definition, history, sensitive
+    # call shapes)
+    hmach = (2, 3, 2, False, 1) if thorough else (1, 2, 2, True, 2)
+    hlaws = 2 if thorough else 1
+    hpos, hkw = 3, 2
+    jh = ex.submit(tlc.run, "ArgBind", model_cfg(*hmach[:4], maxredef=hmach[4]),
+                   workers=6 if thorough else 2, timeout=6000, seed=run.seed)
+    jl = ex.submit(tlc.run, "ArgBind", model_cfg(n, hpos, hkw, True, export="laws", maxredef=hlaws),
+                   workers=4 if thorough else 2, timeout=6000, seed=run.seed)
+    jhe = ex.submit(tlc.run, "ArgBind", model_cfg(n, hpos, hkw, True, mod, rem, export="hists", maxredef=1),
                     workers=1, timeout=3000, seed=run.seed, heap="4g")
     r = je.result()
     common.require(r.ok and not r.violated, "ArgBind export failed:\n" + r.out[-2000:])
@@ -716,7 +727,7 @@ def main():
     base_calls = {sig_text(sg): cs for sg, cs in sigs}
     hitems = history_items(run, rng, rh.cases, base_calls, (2, 1, 1) if thorough else (1, 1, 1), 1, maxpos)
     if thorough:
-      r2 = tlc.run("ArgBind", model_cfg(hn, hpos, hkw, True, 8, run.seed % 8, export="hists", maxredef=2),
+      r2 = tlc.run("ArgBind", model_cfg(n, hpos, hkw, True, 8, run.seed % 8, export="hists", maxredef=2),
                    workers=1, timeout=3000, seed=run.seed, heap="6g")
       common.require(r2.ok and not r2.violated, "ArgBind history export (2) failed:\n" + r2.out[-2000:])
       run.add("tlc_export_wall_s", round(r2.wall, 1))
@@ -726,7 +737,7 @@ def main():
     # biggest modules first (better packing of the pool)
     items.sort(key=lambda it: -len(it[2]))
     ncalls = judge(run, items, procs=8)
-    for job, label in ((jm, "n2"), (jm3, "n3"), (jh, "hist")):
+    for job, label in ((jm, "n2"), (jm3, "n3"), (jh, "hist_machine"), (jl, "hist_laws")):
       if job is None:
         continue
       r = job.result()
@@ -738,8 +749,10 @@ def main():
       run.add("tlc_model_wall_s", round(r.wall, 1))
   run.put("model_bounds", {"N": n, "MaxPos": maxpos, "MaxKw": maxkw, "Foreign": FOREIGN, "StarNames": True,
                            "second_model": {"N": 3, "MaxPos": 5, "MaxKw": 3, "StarNames": False} if thorough else None,
-                           "history_model": {"N": hn, "MaxPos": hpos, "MaxKw": hkw, "StarNames": False,
-                                             "MaxRedef": hred}})
+                           "history_machine": dict(zip(("N", "MaxPos", "MaxKw", "StarNames", "MaxRedef"), hmach)),
+                           "history_laws": {"N": n, "MaxPos": hpos, "MaxKw": hkw, "StarNames": True,
+                                            "MaxRedef": hlaws},
+                           "history_export": {"N": n, "MaxPos": hpos, "MaxKw": hkw, "StarNames": True}})
   run.put("exhaustive", bool(thorough))
   run.put("traces_validated_against_impl", ncalls)
   run.put("evaluations", ncalls)
